@@ -34,6 +34,10 @@ from mashumaro.mixins.orjson import DataClassORJSONMixin
 
 class NoopDialect(Dialect):
     pass
+def c05_tagger(cls):
+    # variant_tagger_fn: every subclass is registered under two tags derived from its name
+    sfx = cls.__name__.rsplit("V", 1)[1]
+    return ["v" + sfx, "alt-v" + sfx]
 class D2(dict):
     pass
 class Color(Enum):
@@ -498,10 +502,27 @@ def gen_hierarchy(rng, idx: int) -> dict:
             mode = rng.choice(["req", "req", "def"])
             fields.append({"name": f"v{j}f{i}", "type": t, "mode": mode})
         classes.append({"suffix": f"V{j}", "parent": parent, "tag": f"tag{j}" if tag_style != "none" else None,
-                        "tag_style": tag_style, "fields": fields, "forbid": rng.random() < 0.2})
+                        "tag_style": tag_style, "fields": fields, "forbid": rng.random() < 0.2,
+                        # the variant's OWN from_dict may raise any class (user hook), KeyError / AttributeError included
+                        "hook": rng.random() < 0.35})
     # ADD_DIALECT_SUPPORT: calls may pass dialect= (an empty Dialect: same outcome demanded)
     dialect_support = flavour in ("config-mixin", "config-msgpack", "config-orjson") and rng.random() < 0.6
-    return {"idx": idx, "flavour": flavour, "field": field, "classes": classes, "dialect_support": dialect_support}
+    return {"idx": idx, "flavour": flavour, "field": field, "classes": classes, "dialect_support": dialect_support,
+            "tagger": rng.random() < 0.25}
+
+
+def tags_of(h: dict, i: int) -> list[str]:
+    """the tags class i is registered under (own tag attribute, or the list the variant_tagger_fn returns)"""
+    c = h["classes"][i]
+    if h.get("tagger"):
+        j = c["suffix"][1:]
+        return ["v" + j, "alt-v" + j]
+    return [c["tag"]] if c["tag"] is not None else []
+
+
+def discr_expr(h: dict) -> str:
+    return (f"Discriminator(field={h['field']!r}, include_subtypes=True"
+            + (", variant_tagger_fn=c05_tagger" if h.get("tagger") else "") + ")")
 
 
 def hier_source(h: dict, prefix: str) -> str:
@@ -510,7 +531,7 @@ def hier_source(h: dict, prefix: str) -> str:
     lines = ["@dataclass", f"class {base}({MIXIN_OF.get(h['flavour'], 'DataClassDictMixin')}):"]
     if h["flavour"].startswith("config"):
         lines += ["    class Config(BaseConfig):",
-                  f"        discriminator = Discriminator(field={h['field']!r}, include_subtypes=True)"]
+                  f"        discriminator = {discr_expr(h)}"]
         if h.get("dialect_support"):
             lines += ["        code_generation_options = [ADD_DIALECT_SUPPORT]"]
     else:
@@ -519,7 +540,7 @@ def hier_source(h: dict, prefix: str) -> str:
         par = base if c["parent"] is None else base + h["classes"][c["parent"]]["suffix"]
         lines += ["@dataclass", f"class {base}{c['suffix']}({par}):"]
         body = []
-        if c["tag_style"] == "attr":
+        if c["tag_style"] == "attr" and not h.get("tagger"):
             body.append(f"    {h['field']} = {c['tag']!r}")
         for f in c["fields"]:
             ti = POOL_BY_EXPR[f["type"]]
@@ -527,14 +548,20 @@ def hier_source(h: dict, prefix: str) -> str:
             if f["mode"] == "def":
                 args.append(("default_factory=" if ti.factory else "default=") + ti.default)
             body.append(f"    {f['name']}: {f['type']} = field({', '.join(args)})")
-        if c["tag_style"] == "literal":
+        if c["tag_style"] == "literal" and not h.get("tagger"):
             body.append(f"    {h['field']}: Literal[{c['tag']!r}] = field(default={c['tag']!r}, kw_only=True)")
         if c["forbid"]:
             body += ["    class Config(BaseConfig):", "        forbid_extra_keys = True"]
+        if c.get("hook"):
+            body += ["    @classmethod", "    def __pre_deserialize__(cls, d):",
+                     "        if isinstance(d, dict) and 'boom' in d:",
+                     "            raise {'key': KeyError, 'attr': AttributeError, 'type': TypeError, 'lookup': LookupError,"
+                     " 'index': IndexError}[d['boom']]('boom')",
+                     "        return d"]
         lines += body or ["    pass"]
     if h["flavour"] == "annotated-field":
         lines += ["@dataclass", f"class {base}Holder(DataClassDictMixin):",
-                  f"    v: Annotated[{base}, Discriminator(field={h['field']!r}, include_subtypes=True)]"]
+                  f"    v: Annotated[{base}, {discr_expr(h)}]"]
     return "\n".join(lines) + "\n"
 
 
@@ -560,7 +587,7 @@ def hier_all_fields(h: dict, i: int) -> list[dict]:
 def hier_inputs(rng, h: dict) -> list:
     """A call history: 2-5 inputs, most of them making the chosen variant's OWN decoding fail,
     often repeated (first call for a tag vs later calls)."""
-    tagged = [i for i, c in enumerate(h["classes"]) if c["tag"] is not None]
+    tagged = [i for i, c in enumerate(h["classes"]) if tags_of(h, i)]
     out = []
     for _ in range(rng.choice([2, 3, 3, 4])):
         if out and rng.random() < 0.3:
@@ -568,7 +595,7 @@ def hier_inputs(rng, h: dict) -> list:
             continue
         i = rng.choice(tagged) if tagged else 0
         c = h["classes"][i]
-        d = {h["field"]: c["tag"] or "tag0"}
+        d = {h["field"]: rng.choice(tags_of(h, i) or ["tag0"])}
         fields = hier_all_fields(h, i)
         for f in fields:
             if f["mode"] == "req" or rng.random() < 0.6:
@@ -592,5 +619,7 @@ def hier_inputs(rng, h: dict) -> list:
             d[h["field"]] = rng.choice([["tag0"], {"a": 1}])
         elif kind == "odd-tag":
             d[h["field"]] = rng.choice([None, 0, 1.5, True])
+        if isinstance(d, dict) and any(c.get("hook") for c in h["classes"]) and rng.random() < 0.4:
+            d["boom"] = rng.choice(["key", "key", "attr", "type", "lookup", "index", "nope"])
         out.append(d)
     return out
